@@ -74,7 +74,7 @@ def check_treeinfo(ctx, pmt, D, order_seed, tmpdir):
     try:
         ti = F.build(pmt, D, rng)
         t1 = ti.dumps()
-    except (TypeError, ValueError) as e:
+    except Exception as e:   # refused to write (any exception): outside this property, judged by C06
         ctx.note_add("ti_write_refused")
         ctx.note("ti_write_refused_example", {"error": "%s: %s" % (type(e).__name__, e)})
         return False
@@ -149,7 +149,7 @@ def check_discinfo(ctx, pmd, d, tmpdir):
     try:
         di = F.build_discinfo(pmd, d)
         t1 = di.dumps()
-    except (TypeError, ValueError) as e:
+    except Exception as e:   # refused to write (any exception): outside this property, judged by C06
         ctx.note_add("di_write_refused")
         return False
     lines = t1.split("\n")
